@@ -7,6 +7,7 @@ import Mav.Model.EnumCheck
 import Mav.Spec.Events
 import Mav.Spec.Fanout
 import Mav.Spec.Close
+import Mav.Spec.Lifecycle
 /- mavdrv: one operation per line on stdin, model (and spec) answer per line on stdout. -/
 open Mav Drv
 
@@ -187,6 +188,93 @@ def specInitLine (st : Msg.GoStruct) : String :=
 
 def H := Sha256.hash
 
+
+/-! C14 rendering -/
+def encEnd : Prov.End → String
+  | .err k => "tr" ++ toString k
+  | .eof => "eof"
+  | .reset => "reset"
+  | .timeout => "timeout"
+
+def encAct : Prov.Act → String
+  | .attempt true => "A:o"
+  | .attempt false => "A:f"
+  | .wait => "W"
+  | .opn => "O"
+  | .frames n => "F" ++ toString n
+  | .close e => "C(" ++ encEnd e ++ ")"
+
+def encActs (l : List Prov.Act) : String := if l.isEmpty then "-" else "_".intercalate (l.map encAct)
+
+def endOf (c : Char) (i : Nat) : Option Prov.End :=
+  if c == 'e' then some (.err i) else if c == 'z' then some .eof else if c == 'r' then some .reset
+  else if c == 'i' then some .timeout else none
+
+/-- "f" | "o<k><e>" -/
+def decSerialTok (i : Nat) (t : String) : Option (List Prov.Outcome) :=
+  if t == "f" then some [.fail] else
+  match t.toList with
+  | 'o' :: rest =>
+    match rest.reverse with
+    | e :: digs => do
+      let k ← (String.ofList digs.reverse).toNat?
+      let en ← endOf e i
+      pure [.ok k en]
+    | [] => none
+  | _ => none
+
+/-- "d<n>o<k><e>" -/
+def decTcpTok (t : String) : Option (List Prov.Outcome) :=
+  match t.toList with
+  | 'd' :: rest =>
+    match (String.ofList rest).splitOn "o" with
+    | [n, ke] => do
+      let nn ← n.toNat?
+      let o ← decSerialTok 0 ("o" ++ ke)
+      pure (List.replicate nn .fail ++ o)
+    | _ => none
+  | _ => none
+
+def decScript (kind : String) (s : String) : Option (List Prov.Outcome) :=
+  if s == "-" then some [] else
+  let toks := s.splitOn ","
+  if kind == "serial" then
+    ((List.range toks.length).zip toks).foldlM (fun acc (it : Nat × String) => do
+      let o ← decSerialTok it.1 it.2
+      pure (acc ++ o)) []
+  else if kind == "tcpc" then toks.foldlM (fun acc t => do let o ← decTcpTok t; pure (acc ++ o)) []
+  else if kind == "udpc" then s.toNat?.map (fun k => List.replicate k (.ok 0 .timeout))
+  else none
+
+/-- "p<k><e>" -/
+def decPeer (t : String) : Option String :=
+  match t.toList with
+  | 'p' :: rest =>
+    match rest.reverse with
+    | e :: digs => do
+      let k ← (String.ofList digs.reverse).toNat?
+      let pe : Spec.Life.PeerEnd ← if e == 'z' then some .closes else if e == 'r' then some .resets else if e == 'i' then some .silent
+        else if e == 'a' then some .busy else none
+      let (acts, stillOpen) := Spec.Life.peerTrace k pe
+      pure (encActs acts ++ (if stillOpen then "_open" else ""))
+    | [] => none
+  | _ => none
+
+def decCalls (s : String) : List Prov.Call :=
+  s.toList.filterMap (fun c => if c == 'r' then some .read else if c == 'w' then some .write else if c == 'c' then some .close
+    else if c == 's' then some .sleep else none)
+
+def encLow : Prov.Low → String
+  | .setRead true => "srd:ok"
+  | .setRead false => "srd:fail"
+  | .setWrite true => "swd:ok"
+  | .setWrite false => "swd:fail"
+  | .read => "r"
+  | .write => "w"
+  | .close => "c"
+
+def encLows (l : List Prov.Low) : String := if l.isEmpty then "-" else "_".intercalate (l.map encLow)
+
 def step (ds : DState) (line : String) : DState × String :=
   match (line.splitOn " ") with
   | ["x25", h] =>
@@ -277,6 +365,17 @@ def step (ds : DState) (line : String) : DState × String :=
           else "violation: observed [" ++ pre ++ " | " ++ post ++ "] expected " ++ "~".intercalate (evs oracle) ++ "~C(nil)"
         verdict false ++ "\t" ++ verdict true
       | _, _ => "bad-op")
+  | ["lifecheck", kind, script] =>
+    (ds, if kind == "tcps" || kind == "udps" then
+        match (script.splitOn ",").mapM decPeer with
+        | some ps => let v := ";".intercalate ps; v ++ "\t" ++ v
+        | none => "bad-op"
+      else match decScript kind script with
+        | some sc => encActs (Prov.modelTrace sc) ++ "\t" ++ encActs (Spec.Life.specTrace false sc)
+        | none => "bad-op")
+  | ["tnc", _idle, _wt, failS, calls] =>
+    (ds, let failAt : Option Nat := failS.toNat?
+      encLows (Prov.tncRun failAt 0 (decCalls calls)) ++ "\t" ++ encLows (Spec.Life.tncSpec failAt (decCalls calls)))
   | ["closecheck", _sc, obs, _note] =>
     (ds, match Spec.Close.parseObs obs with
       | some o => let v := if Spec.Close.closeLegal o then "ok" else "violation: " ++ obs; v ++ "\t" ++ v
